@@ -188,6 +188,11 @@ class CutWorld(OracleWorld):
         return None
 
 
+class Nondeterministic(AnalysisError):
+    """A step has several outcomes although the letter is fixed: the code depends on something the
+    alphabet does not describe (numeric positions, other characters, ...)."""
+
+
 Transition = collections.namedtuple("Transition", "letter events target result")
 
 
@@ -213,7 +218,7 @@ def extract(prog, world, body_key, args, alphabet, result_of=None, max_states=50
         """Exactly one outcome expected (the code is deterministic once the letter is fixed)."""
         live = [o for o in outs if o.kind != "closed"]
         if len(live) != 1:
-            raise AnalysisError("%s: %d outcomes (%s): the step depends on something the letter does not determine" % (where, len(live), [(o.kind, [k for k, v in o.state.log][-3:]) for o in live][:4]))
+            raise Nondeterministic("%s: %d outcomes: the step depends on something the letter does not determine (decisions: %s)" % (where, len(live), sorted({repr(k) for o in live for k, v in o.state.log})[:3]))
         return live[0]
 
     st0 = m.start(body_key, args)
